@@ -166,8 +166,17 @@ struct ReplayFile {
     scenario: Option<Scenario>,
 }
 
+fn replay_dir() -> PathBuf {
+    match std::env::var("VERIF_REPLAY_DIR") {
+        Ok(d) if !d.is_empty() => PathBuf::from(d),
+        _ => Path::new(VERIF_ROOT).join("replays"),
+    }
+}
+
 fn replay_path(prop: &str, run_seed: u64) -> PathBuf {
-    Path::new(VERIF_ROOT).join("replays").join(format!("{}-{:016x}.json", prop, run_seed))
+    let d = replay_dir();
+    std::fs::create_dir_all(&d).ok();
+    d.join(format!("{}-{:016x}.json", prop, run_seed))
 }
 
 fn gen_scenario(engine: &str, verif_seed: u64, index: u64) -> Result<Scenario, String> {
@@ -330,7 +339,7 @@ fn worker(engine: &str, prop: &str, verif_seed: u64, from: u64, to: u64, step: u
                     scenario: None,
                 };
                 std::fs::write(&path, serde_json::to_vec_pretty(&rf).unwrap()).expect("write replay");
-                println!("VIOLATION property={} replay={}", prop, path.display());
+                println!("VIOLATION-AT {} property={} replay={}", i, prop, path.display());
                 out.violation = Some((v, path.display().to_string()));
                 exit = 1;
                 break;
@@ -396,7 +405,11 @@ fn worker(engine: &str, prop: &str, verif_seed: u64, from: u64, to: u64, step: u
                     out.known_findings.push(line);
                 }
             } else {
-                let path = report_violation(prop, verif_seed, engine, i, run_seed, &scn, &v, mask);
+                let mut tick = |n: u32| {
+                    let line = format!("{:>20} {:>20} minimising {:>8}\n", i, out.runs, n);
+                    let _ = status.write_at(line.as_bytes(), 0);
+                };
+                let path = report_violation(prop, verif_seed, engine, i, run_seed, &scn, &v, mask, &mut tick);
                 out.violation = Some((v, path));
                 exit = 1;
                 break;
@@ -436,10 +449,11 @@ fn report_violation(
     scn: &Scenario,
     v: &Violation,
     mask: Mask,
+    tick: &mut dyn FnMut(u32),
 ) -> String {
     let original_size = scn.size();
     let budget: u32 = std::env::var("VERIF_MIN_BUDGET").ok().and_then(|x| x.parse().ok()).unwrap_or(2000);
-    let m = minimise::minimise(scn, v, mask, budget);
+    let m = minimise::minimise(scn, v, mask, budget, tick);
     let path = replay_path(prop, run_seed);
     std::fs::create_dir_all(path.parent().unwrap()).ok();
     let rf = ReplayFile {
@@ -475,7 +489,7 @@ fn report_violation(
         if confirmed { "reproduces" } else { "DID NOT REPRODUCE" }
     );
     println!("  {}", rf.detail);
-    println!("VIOLATION property={} replay={}", prop, path.display());
+    println!("VIOLATION-AT {} property={} replay={}", index, prop, path.display());
     path.display().to_string()
 }
 
@@ -511,7 +525,7 @@ fn replay(path: &str, quiet: bool) -> i32 {
         // re-run that run index in a child process; it reproduces if the child dies
         let exe = std::env::current_exe().expect("current exe");
         let dir = scratch_dir(&format!("replay-{}", std::process::id()));
-        let st = Command::new(exe)
+        let mut child = Command::new(exe)
             .args([
                 "worker",
                 &rf.engine,
@@ -525,7 +539,22 @@ fn replay(path: &str, quiet: bool) -> i32 {
             .arg(&dir)
             .stdout(Stdio::null())
             .stderr(Stdio::null())
-            .status();
+            .spawn()
+            .expect("spawn worker");
+        // a run that does not finish within the watchdog interval is a hang
+        let limit = watchdog_interval();
+        let t0 = Instant::now();
+        let st: std::io::Result<std::process::ExitStatus> = loop {
+            match child.try_wait() {
+                Ok(Some(st)) => break Ok(st),
+                Ok(None) if t0.elapsed() > limit => {
+                    let _ = child.kill();
+                    break child.wait();
+                }
+                Ok(None) => std::thread::sleep(Duration::from_millis(20)),
+                Err(e) => break Err(e),
+            }
+        };
         let _ = std::fs::remove_dir_all(&dir);
         return match st.map(|s| s.code()) {
             Ok(Some(0)) => {
@@ -586,6 +615,12 @@ fn replay(path: &str, quiet: bool) -> i32 {
 // supervisor
 // ---------------------------------------------------------------------------
 
+/// A worker whose status file does not change for this long is hung (a run
+/// normally takes well under a millisecond to a few hundred milliseconds).
+fn watchdog_interval() -> Duration {
+    Duration::from_secs(std::env::var("VERIF_WATCHDOG_S").ok().and_then(|x| x.parse().ok()).unwrap_or(60))
+}
+
 fn scratch_dir(name: &str) -> PathBuf {
     let d = Path::new(VERIF_ROOT).join("sim").join("target").join("scratch").join(name);
     let _ = std::fs::remove_dir_all(&d);
@@ -618,7 +653,7 @@ fn check(prop: &str, tier: &str) -> i32 {
         .unwrap_or_else(|| std::thread::available_parallelism().map(|n| n.get() as u64).unwrap_or(4))
         .max(1);
     let scale: f64 = std::env::var("VERIF_RUNS_SCALE").ok().and_then(|x| x.parse().ok()).unwrap_or(1.0);
-    let watchdog = Duration::from_secs(std::env::var("VERIF_WATCHDOG_S").ok().and_then(|x| x.parse().ok()).unwrap_or(180));
+    let watchdog = watchdog_interval();
     println!("check {} tier={} VERIF_SEED={} workers={}", prop, tier, verif_seed, workers);
     let exe = std::env::current_exe().expect("current exe");
     let t0 = Instant::now();
@@ -629,6 +664,8 @@ fn check(prop: &str, tier: &str) -> i32 {
     let mut distinct_nontrivial = 0u64;
     let mut extra_distinct: BTreeMap<String, u64> = BTreeMap::new();
     let mut violation_line: Option<String> = None;
+    let mut violation_at: Option<u64> = None;
+    let mut first_violation_worker: Option<(String, u64)> = None;
     let mut harness_error = false;
 
     for (engine, quick, thorough) in &pl.engines {
@@ -689,9 +726,15 @@ fn check(prop: &str, tier: &str) -> i32 {
         let mut engine_wall = 0u64;
         for (k, code, stdout, stderr) in done {
             for l in stdout.lines() {
-                if l.starts_with("VIOLATION ") {
-                    if violation_line.is_none() {
-                        violation_line = Some(l.to_string());
+                if let Some(rest) = l.strip_prefix("VIOLATION-AT ") {
+                    // keep the violation with the smallest run index: the verdict
+                    // does not depend on which worker finished first
+                    let (idx, tail) = rest.split_once(' ').unwrap_or(("0", rest));
+                    let idx: u64 = idx.parse().unwrap_or(0);
+                    if violation_at.map(|a| idx < a).unwrap_or(true) {
+                        violation_at = Some(idx);
+                        violation_line = Some(format!("VIOLATION {}", tail));
+                        first_violation_worker = Some((engine.to_string(), k));
                     }
                 } else if l.starts_with("KNOWN-FINDING") {
                     if !total.known_findings.contains(&l.to_string()) {
@@ -726,7 +769,7 @@ fn check(prop: &str, tier: &str) -> i32 {
                                 total.samples.extend(o.samples.into_iter().take(1));
                             }
                             if let Some(v) = o.violation {
-                                if total.violation.is_none() {
+                                if first_violation_worker.as_ref() == Some(&(engine.to_string(), k)) {
                                     total.violation = Some(v);
                                 }
                             }
@@ -848,6 +891,7 @@ fn check(prop: &str, tier: &str) -> i32 {
         "reach_probes": reach,
         "distinct_fault_reader_outcome_triples": total.triples.len(),
         "known_findings_seen": total.known_findings,
+        "aiming_parser_disagreements": total.probes.get("aiming_parser.disagreement").copied().unwrap_or(0),
         "components": {
             "real": ["scale_info::Registry", "scale_info::interner::Interner", "IntoPortable impls", "built-in and derived TypeInfo impls", "PortableRegistry (From<Registry>, resolve, retain)", "PortableRegistryBuilder", "derived scale Encode/Decode and serde impls of PortableRegistry", "parity-scale-codec IoReader / Output for io::Write", "serde_json"],
             "simulated": ["clients and their scripts", "network (delivery order, duplication, delay)", "Node<N> type definitions (type_info reads the run's specification)", "Read / Write / Input seams (chunking, short reads, EINTR, I/O errors, unknown remaining length)", "storage medium with fault sequences"],
@@ -872,7 +916,10 @@ fn check(prop: &str, tier: &str) -> i32 {
         "wall_s": wall,
         "violations": violations,
     });
-    let ev_dir = Path::new(VERIF_ROOT).join("evidence");
+    let ev_dir = match std::env::var("VERIF_EVIDENCE_DIR") {
+        Ok(d) if !d.is_empty() => PathBuf::from(d),
+        _ => Path::new(VERIF_ROOT).join("evidence"),
+    };
     std::fs::create_dir_all(&ev_dir).ok();
     let ev_path = ev_dir.join(format!("{}.json", prop));
     let mut f = std::fs::File::create(&ev_path).expect("evidence file");
